@@ -183,18 +183,20 @@ def run(ctx):
     res = common.run_model(model, cases)
     mism = [l for l in res if not l.startswith("OK ")]
     effective = sum(1 for l in res if l.startswith("OK ") and not l.endswith("eff=0"))
+    over = sum(1 for l in res if l.startswith("OK ") and " over=0 " not in l)
     distinct = len(set(l.split("\t", 3)[3] for l in lines if l.count("\t") >= 3))
     nops = sum(l.split("\t")[3].count(";") + 1 for l in lines if l.count("\t") >= 3)
     ctx.cov["evaluations"] += nops
     ctx.cov["distinct_nontrivial"] += distinct
     ctx.notes["correspondence"] = {"programs": len(lines), "ops": nops, "mismatches": len(mism), "distinct_programs": distinct,
-                                   "programs_in_which_a_shared_input_was_observed_to_change": effective}
+                                   "programs_in_which_a_shared_input_was_observed_to_change": effective,
+                                   "programs_where_the_table_over_approximates_aliasing_of_a_payload_free_input": over}
     ctx.cov["samples"] += [l[:300] for l in lines[5:8]]
     ctx.log("correspondence: %d sequential programs (%d ops), %d mismatches, %d programs mutate a shared input"
             % (len(lines), nops, len(mism), effective))
     # 4 search: concurrent rounds on the real library
-    nr = ctx.n(110, 2000)
-    nk = ctx.n(12, 60)
+    nr = ctx.n(220, 2400)
+    nk = ctx.n(16, 60)
     workers = max(2, min(8, common.NCPU // 2))
     cmd = [exe, "search", "-repo", common.REPO, "-seed", str(ctx.seed), "-n", str(nr), "-known", str(nk), "-workers", str(workers)]
     if not race_ok:
